@@ -1,6 +1,7 @@
 package clienttrace
 
 import (
+	"errors"
 	"flag"
 	"fmt"
 	"runtime"
@@ -8,7 +9,9 @@ import (
 	"testing"
 	"time"
 
+	"github.com/256dpi/gomqtt/client/future"
 	"github.com/256dpi/gomqtt/packet"
+	"github.com/256dpi/gomqtt/session"
 
 	"verifharness/lib/gen"
 	"verifharness/lib/out"
@@ -24,6 +27,7 @@ var (
 	fNShard = flag.Int("nshard", 1, "shards")
 	fFix    = flag.String("fix", "1111", "which repairs the model assumes (defects 9, 10+11, 14, 15)")
 	fOnly   = flag.String("only", "", "run only the directed scenario with this name")
+	fWrapM  = flag.Int("wrapmodel", 0, "id-wrap: how many of its 65535 rounds are submitted to the Lean model (0: 1500 quick / 6000 thorough, -1: all — the model keeps every future and every send of a run, its cost per step grows with the length of the run: all rounds take several minutes)")
 )
 
 // ---------------------------------------------------------------- the scripted broker
@@ -516,7 +520,7 @@ func (s *script) random(wt weights, steps int) {
 // parkAPI: an exported method is held inside a session operation while the other side acts
 func (s *script) parkAPI() {
 	w := s.w
-	kinds := []string{"nextid", "save/out"}
+	kinds := []string{"nextid", "save/out", "lookup/out"}
 	kind := kinds[s.r.Intn(len(kinds))]
 	w.Park("a", kind)
 	var cl *call
@@ -636,6 +640,10 @@ func (s *script) finish() {
 	w.Drop(false)
 	time.Sleep(time.Hour)
 	w.settle()
+	w.mu.Lock()
+	mutated := w.checkKept("at the end of the case")
+	w.mu.Unlock()
+	w.reportKept(mutated)
 	w.o.Distinct(strings.Join(s.desc, " "))
 }
 
@@ -730,7 +738,7 @@ func directed() []scenario {
 				return
 			}
 			s.w.finishCall(s.publish(1))
-			kind := []string{"nextid", "nextid", "save/out"}[s.r.Intn(3)]
+			kind := []string{"nextid", "lookup/out", "save/out"}[s.r.Intn(3)]
 			s.w.Park("a", kind)
 			var cl *call
 			switch s.r.Intn(3) {
@@ -772,6 +780,43 @@ func directed() []scenario {
 			s.opts.clean = false
 			if s.connect("accept-sp", false, false, false) {
 				for guard2 := 0; guard2 < 64 && s.ackOne(s.r.Intn(3), false); guard2++ {
+					s.w.settle()
+				}
+			}
+		}},
+		{"id-skip", "C09", func(s *script) {
+			// a PUBREC for an id the client has not used yet makes it record PUBREL k: from then on k is in use, and the
+			// request whose NextID returns k has to step over it (Client.nextID) — the short, fully model-checked
+			// counterpart of the id-wrap run
+			if !s.connect("accept", false, false, false) {
+				return
+			}
+			k := packet.ID(1 + s.r.Intn(4))
+			s.note("broker spurious pubrec %d", k)
+			s.w.Feed(&packet.Pubrec{ID: k})
+			s.w.settle()
+			if s.r.Intn(3) == 0 {
+				s.note("failsess lookup/out %d", int(k))
+				s.w.failSessKind, s.w.failSessN = "lookup/out", int(k) // the lookup that would find PUBREL k fails
+			}
+			for i := 0; i < int(k)+1 && s.w.alive() && !s.w.clientEnded(); i++ {
+				switch s.r.Intn(4) {
+				case 0:
+					s.w.finishCall(s.subscribe())
+				case 1:
+					s.w.finishCall(s.unsubscribe())
+				default:
+					s.w.finishCall(s.publish(packet.QOS(1 + s.r.Intn(2))))
+				}
+			}
+			for guard := 0; guard < 16 && s.r.Intn(4) != 0 && s.ackOne(s.r.Intn(3), false); guard++ {
+				s.w.settle()
+			}
+			s.note("drop carrier=false")
+			s.w.Drop(false)
+			s.w.settle()
+			if s.connect("accept-sp", false, false, false) {
+				for guard := 0; guard < 64 && s.ackOne(0, false); guard++ {
 					s.w.settle()
 				}
 			}
@@ -838,6 +883,116 @@ func directed() []scenario {
 	}
 }
 
+// id-wrap (C09): packet ids wrap around.  QoS 1 publish A is never acknowledged; 65535 further QoS 1 publishes are each
+// acknowledged at once.  The session's 16-bit id counter is then back at A's id.  MQTT 3.1.1 §2.3.1: a new packet takes a
+// packet identifier that is currently unused; the outgoing store and the future store are keyed by id, so a re-used id
+// replaces the record of A ("keeps it until the broker's PUBACK" is broken, A is not retransmitted after a reconnect) and
+// displaces A's future (cancelled although the connection is fine).  The case has its own, model-independent checks; the
+// first `modelRounds` rounds are also submitted to the Lean model (see -wrapmodel), the short `id-skip` scenario
+// model-checks the stepping-over itself.  Runs once per check (shard 0).
+func c09Wrap(s *script, modelRounds int) {
+	w := s.w
+	w.light = true
+	s.note("scenario id-wrap")
+	s.opts = connOpts{clean: false, validate: true, keepAlive: "0s", id: "c"}
+	if !s.connect("accept", false, false, false) {
+		panic("id-wrap: connect failed")
+	}
+	s.note("publish qos=1 payload=A (its PUBACK is withheld)")
+	ca := w.PublishAsync("t/o", []byte("A"), 1)
+	w.finishCall(ca)
+	if ca.ret != "fut" {
+		panic("id-wrap: publish A: " + ca.ret)
+	}
+	idA, fa := ca.id, w.futs[ca.fut].f
+	w.pollOne(ca.fut, w.futs[ca.fut])
+	const total = 65535
+	rounds, reusedAt, lastID := 0, 0, packet.ID(0)
+	for rounds < total {
+		if rounds == modelRounds {
+			w.muteModel(fmt.Sprintf("id-wrap: the remaining %d rounds are not submitted to the model (its state keeps every future and every send of a run: the cost per step grows with the length of the run); the monitors of this case go on", total-rounds))
+		}
+		rounds++
+		show := rounds <= 2 || rounds > total-2
+		if show {
+			s.note("publish qos=1 (round %d)", rounds)
+		}
+		cl := w.PublishAsync("t/o", []byte("x"), 1)
+		w.finishCall(cl)
+		if cl.ret != "fut" {
+			w.hit("id-wrap-publish-failed", fmt.Sprintf("round %d: Publish returned %q although the connection is up and one packet is stored", rounds, cl.ret))
+			break
+		}
+		lastID = cl.id
+		if cl.id == idA && reusedAt == 0 {
+			reusedAt = rounds
+			w.hit("id-reused-while-unacked", fmt.Sprintf("round %d: the publish was stored and sent under packet id %d, the id of publish A, which is still unacknowledged (MQTT 3.1.1 section 2.3.1: a currently unused packet identifier)", rounds, idA))
+		}
+		// the broker acknowledges it at once
+		if show {
+			s.note("broker puback %d", cl.id)
+		}
+		if r := w.peer.find(cl.id, "pub1"); r != nil && cl.id != idA {
+			w.peer.remove(r)
+		}
+		w.Feed(&packet.Puback{ID: cl.id})
+		w.settle()
+		if !w.mute {
+			w.pollOne(cl.fut, w.futs[cl.fut])
+		}
+	}
+	w.o.Count(fmt.Sprintf("c09wrap/rounds-%d", rounds))
+	// A was never acknowledged: it must still be recorded, its future must still be pending
+	p, _ := w.inner.LookupPacket(session.Outgoing, idA)
+	held := "nothing"
+	if pub, ok := p.(*packet.Publish); ok {
+		held = fmt.Sprintf("PUBLISH %q", pub.Message.Payload)
+	} else if p != nil {
+		held = p.Type().String()
+	}
+	if held != `PUBLISH "A"` {
+		w.hit("kept-until-acked", fmt.Sprintf("publish A (id %d) was never acknowledged but after %d further acknowledged publishes the session holds %s under its id", idA, rounds, held))
+	}
+	stA := "pending"
+	switch err := fa.Wait(time.Nanosecond); {
+	case err == nil:
+		stA = "completed"
+	case errors.Is(err, future.ErrCanceled):
+		stA = "cancelled"
+	}
+	if stA != "pending" {
+		w.hit("future-"+stA+"-while-connected", fmt.Sprintf("the future of publish A (id %d) is %s although no PUBACK for A arrived and the connection is up", idA, stA))
+	}
+	// the connection is lost; the session is resumed: A has to be retransmitted, flagged duplicate
+	s.note("drop carrier=false")
+	w.Drop(false)
+	w.settle()
+	w.mu.Lock()
+	w.recSent, w.sent = true, nil
+	w.mu.Unlock()
+	resent := 0
+	if s.connect("accept-sp", false, false, false) {
+		found := false
+		w.mu.Lock()
+		for _, q := range w.sent {
+			if pub, ok := q.(*packet.Publish); ok {
+				resent++
+				if string(pub.Message.Payload) == "A" && pub.Dup && pub.ID == idA {
+					found = true
+				}
+			}
+		}
+		w.mu.Unlock()
+		if !found {
+			w.hit("resend-missing", fmt.Sprintf("publish A (id %d) is unacknowledged but was not retransmitted after the reconnect (%d PUBLISH packets were)", idA, resent))
+		}
+		for guard := 0; guard < 8 && s.ackOne(0, false); guard++ {
+			w.settle()
+		}
+	}
+	w.o.Sample(fmt.Sprintf("id wrap: A held under id %d, %d further publishes each acknowledged at once, the last one under id %d (id of A taken again in round %d; 0 = never); A afterwards: session holds %s, future %s; %d PUBLISH retransmitted after the reconnect; %d rounds model-checked", idA, rounds, lastID, reusedAt, held, stA, resent, min(modelRounds, rounds)))
+}
+
 func TestHarness(t *testing.T) {
 	if *fOut == "" {
 		t.Skip("no -out")
@@ -874,6 +1029,22 @@ func TestHarness(t *testing.T) {
 				s.finish()
 			})
 		}
+	}
+	if prop == "C09" && ((*fOnly == "" && *fShard == 0) || *fOnly == "id-wrap") {
+		mr := *fWrapM
+		if mr == 0 {
+			mr = 1500
+			if *fTier == "thorough" {
+				mr = 6000
+			}
+		} else if mr < 0 {
+			mr = 1 << 30
+		}
+		runCase(t, o, "directed id-wrap", func(t *testing.T) {
+			s := newScript(t, o, r, prop)
+			c09Wrap(s, mr)
+			s.finish()
+		})
 	}
 	if *fOnly != "" {
 		return
